@@ -1,1 +1,482 @@
-pub fn run(_ctx: &vcore::Ctx) -> ! { todo!() }
+//! C16 — turmoil-net never exceeds its buffer caps, the MSS or the peer's
+//! window; UDP payloads beyond the MTU are rejected.
+
+use std::cell::RefCell;
+use std::net::{IpAddr, Ipv4Addr, Ipv6Addr, SocketAddr};
+use std::rc::Rc;
+
+use serde_json::{json, Value};
+use turmoil_net::shim::tokio::net::UdpSocket;
+use turmoil_net::{Net, Packet, Transport};
+use vcore::{Ctx, Finish, Report, Rng, RunOpts, ScenarioOut};
+
+use crate::exec::{wait_rounds, Exec, RoundClock};
+use crate::gen;
+use crate::oracle::minimise_with;
+use crate::scn::*;
+use crate::wire::{kernel_config, outcome_json, run_scn, Outcome};
+
+const PROP: &str = "C16";
+const ROUND_CAP: u64 = 60_000;
+
+const API_CLASSES: [&str; 5] = [
+    "partial-write",
+    "wouldblock-with-space",
+    "parked-write-no-ack",
+    "send-q-over-cap",
+    "write-count",
+];
+
+/// All C16 complaints of one run: wire/quiescent monitors + API clause.
+fn complaints(o: &Outcome) -> Vec<(String, String)> {
+    let mut v = o.mon.complaints.clone();
+    for (c, d) in &o.hist.complaints {
+        if API_CLASSES.contains(&c.as_str()) {
+            v.push((c.clone(), d.clone()));
+        }
+    }
+    v
+}
+
+fn explicit_of(scn: &Scn, o: &Outcome) -> Scn {
+    let mut s = scn.clone();
+    s.sched = Sched::Explicit(o.applied_faults());
+    s
+}
+
+fn tcp_out(part: &str, scn: &Scn, minimise_it: bool) -> ScenarioOut {
+    let mut out = ScenarioOut::default();
+    let o = run_scn(scn, ROUND_CAP);
+    out.digest = o.digest();
+    for (k, n) in &o.mon.counters {
+        out.count(k, *n);
+    }
+    for p in &o.pkts {
+        out.count(&format!("packets_checked.{}", p.kind.as_str()), 1);
+    }
+    let mss = scn.cfg.mss();
+    out.count("runs", 1);
+    if scn.cfg.loopback {
+        out.count("runs_loopback", 1);
+    } else {
+        out.count("runs_cross_host", 1);
+    }
+    if scn.cfg.v6 {
+        out.count("runs_ipv6", 1);
+    } else {
+        out.count("runs_ipv4", 1);
+    }
+    if scn.cfg.send_cap < mss || scn.cfg.recv_cap < mss {
+        out.count("runs_with_cap_below_one_mss", 1);
+    }
+    if scn.cfg.send_cap != scn.cfg.recv_cap {
+        out.count("runs_with_asymmetric_caps", 1);
+    }
+    if o.drops > 0 {
+        out.count("runs_with_loss", 1);
+    }
+    if o.overtakes > 0 {
+        out.count("runs_with_reordering", 1);
+    }
+    for d in &o.hist.dirs {
+        out.count("try_write_wouldblock_observed", d.wouldblock);
+        out.count("partial_writes_observed", d.partial_writes);
+        out.count("parked_writes_observed", d.parked_writes);
+        out.count("write_calls", d.write_calls);
+    }
+    out.saw("max_payload_vs_mss", format!("mss={} max_payload={}", mss, o.mon.max_payload));
+    let c = |k: &str| o.mon.counters.get(k).copied().unwrap_or(0);
+    out.nontrivial = c("data_segments_checked_mss") >= 1
+        && c("window_bound_evaluations") >= 1
+        && (c("send_q_at_cap") + c("recv_q_at_cap") + c("zero_windows_advertised") + c("segments_exactly_mss") + c("window_bound_tight") > 0);
+    out.sample = Some(json!({"part": part, "scn": scn.to_json(),
+        "max_payload": o.mon.max_payload, "mss": mss, "max_send_q": o.mon.max_send_q, "max_recv_q": o.mon.max_recv_q,
+        "max_bytes_beyond_delivered_ack": o.mon.max_inflight,
+        "outcome": outcome_json(&o, 25, 15)}));
+    let cs = complaints(&o);
+    if let Some((class, detail)) = cs.first() {
+        let ex = if matches!(scn.sched, Sched::Explicit(_)) { scn.clone() } else { explicit_of(scn, &o) };
+        let class2 = class.clone();
+        let fails = move |s: &Scn| complaints(&run_scn(s, ROUND_CAP)).iter().any(|(c, _)| *c == class2);
+        if !fails(&ex) {
+            panic!("explicit replay of a failing C16 walk does not reproduce {class}: {}", scn.canon());
+        }
+        let min = if minimise_it { minimise_with(&ex, &fails, 200) } else { ex.clone() };
+        let o2 = run_scn(&min, ROUND_CAP);
+        let detail2 = complaints(&o2)
+            .into_iter()
+            .find(|(c, _)| c == class)
+            .map(|(_, d)| d)
+            .unwrap_or_else(|| detail.clone());
+        out.violate(
+            class,
+            format!("{PROP}|{class}||{}", min.canon()),
+            format!("{class}: {detail2} — scenario {}", min.canon()),
+            json!({"part": part, "scn": min.to_json(), "original_scn": scn.to_json(), "outcome": outcome_json(&o2, 80, 60)}),
+        );
+    }
+    out
+}
+
+// ------------------------------------------------------------------ directed
+
+pub fn directed() -> Vec<(&'static str, Scn)> {
+    let d = |total: usize, w: Vec<usize>, r: Vec<usize>, tw: bool, pause: u32| DirSpec {
+        total,
+        wchunks: w,
+        rbufs: r,
+        try_write: tw,
+        read_pause: pause,
+        ..DirSpec::default()
+    };
+    let mk = |cfg: Cfg, c2s: DirSpec, s2c: DirSpec| Scn {
+        cfg,
+        c2s,
+        s2c,
+        sched: Sched::Explicit(vec![]),
+        order: Order::Emission,
+    };
+    let none = || d(0, vec![1], vec![4096], false, 0);
+    vec![
+        // full send buffer: try_write must hit WouldBlock, then partial writes
+        (
+            "full-send-buffer",
+            mk(
+                Cfg { send_cap: 100, recv_cap: 100, ..Cfg::default() },
+                d(1000, vec![64], vec![50], true, 2),
+                none(),
+            ),
+        ),
+        // window far below MSS, reader slower than writer
+        (
+            "tiny-window",
+            mk(
+                Cfg { recv_cap: 7, send_cap: 4096, ..Cfg::default() },
+                d(200, vec![200], vec![3], true, 1),
+                d(150, vec![10], vec![7], false, 0),
+            ),
+        ),
+        // MTU one byte above the headers (MSS 1), IPv6
+        (
+            "mss-one-v6",
+            mk(
+                Cfg { mtu: 61, v6: true, ..Cfg::default() },
+                d(60, vec![60], vec![10], false, 0),
+                d(60, vec![7], vec![60], false, 0),
+            ),
+        ),
+        // loopback with a small loopback MTU: segments are seen through the tap
+        (
+            "loopback-small-mtu",
+            mk(
+                Cfg { loopback: true, loopback_mtu: 61, mtu: 1500, send_cap: 100, recv_cap: 100, ..Cfg::default() },
+                d(500, vec![100], vec![30], true, 1),
+                d(300, vec![300], vec![300], false, 0),
+            ),
+        ),
+        // large transfer, default caps, MSS-sized segments exactly
+        (
+            "bulk-default",
+            mk(Cfg::default(), d(200_000, vec![10_000], vec![10_000], true, 0), none()),
+        ),
+    ]
+}
+
+// ------------------------------------------------------------------ UDP
+
+#[derive(Clone, Debug)]
+struct UdpCase {
+    cfg: Cfg,
+    loopback_dst: bool,
+    sizes: Vec<usize>,
+}
+
+impl UdpCase {
+    fn to_json(&self) -> Value {
+        json!({"cfg": self.cfg.to_json(), "loopback_dst": self.loopback_dst, "sizes": self.sizes})
+    }
+    fn from_json(v: &Value) -> Option<UdpCase> {
+        Some(UdpCase {
+            cfg: Cfg::from_json(&v["cfg"]),
+            loopback_dst: v["loopback_dst"].as_bool()?,
+            sizes: v["sizes"].as_array()?.iter().filter_map(|x| x.as_u64()).map(|x| x as usize).collect(),
+        })
+    }
+    fn canon(&self) -> String {
+        format!("udp|cfg={}|{}", self.cfg.canon(), if self.loopback_dst { "to-loopback" } else { "to-remote" })
+    }
+}
+
+fn gen_udp(rng: &mut Rng) -> UdpCase {
+    let mut cfg = gen::cfg(rng, gen::Flavor::C16);
+    cfg.loopback = false;
+    // MTUs around and above the UDP header sizes
+    let hdr = cfg.ip_hdr() + 8;
+    cfg.mtu = rng.pick_copy(&[hdr, hdr + 1, hdr + 2, 100.max(hdr + 1), 576, 1500, 9000]);
+    cfg.loopback_mtu = rng.pick_copy(&[hdr + 1, 100.max(hdr + 1), 1500, 65536]);
+    let loopback_dst = rng.chance(0.4);
+    let max = cfg.udp_max(loopback_dst);
+    let mut sizes = vec![0usize, 1, max.saturating_sub(1), max, max + 1, max + 2, max + 100, max * 2 + 1];
+    sizes.push(rng.range(0, max as u64 + 50) as usize);
+    rng.shuffle(&mut sizes);
+    UdpCase { cfg, loopback_dst, sizes }
+}
+
+fn udp_out(case: &UdpCase) -> ScenarioOut {
+    let mut out = ScenarioOut::default();
+    let cfg = &case.cfg;
+    let mut net = Net::with_config(kernel_config(cfg));
+    let ips: [IpAddr; 2] = if cfg.v6 {
+        [
+            IpAddr::V6(Ipv6Addr::new(0xfd00, 0, 0, 0, 0, 0, 0, 1)),
+            IpAddr::V6(Ipv6Addr::new(0xfd00, 0, 0, 0, 0, 0, 0, 2)),
+        ]
+    } else {
+        [IpAddr::V4(Ipv4Addr::new(10, 0, 0, 1)), IpAddr::V4(Ipv4Addr::new(10, 0, 0, 2))]
+    };
+    let a = net.add_host(ips[0]);
+    let _b = net.add_host(ips[1]);
+    let guard = net.enter();
+    let tap: Rc<RefCell<Vec<Packet>>> = Rc::new(RefCell::new(vec![]));
+    {
+        let t = tap.clone();
+        turmoil_net::verif::set_loopback_tap(Some(Box::new(move |_a, p| t.borrow_mut().push(p.clone()))));
+    }
+    let dst_ip: IpAddr = if case.loopback_dst {
+        if cfg.v6 {
+            IpAddr::V6(Ipv6Addr::LOCALHOST)
+        } else {
+            IpAddr::V4(Ipv4Addr::LOCALHOST)
+        }
+    } else {
+        ips[1]
+    };
+    let dst = SocketAddr::new(dst_ip, 7777);
+    let wildcard: IpAddr = if cfg.v6 { IpAddr::V6(Ipv6Addr::UNSPECIFIED) } else { IpAddr::V4(Ipv4Addr::UNSPECIFIED) };
+    let results: Rc<RefCell<Vec<(usize, Result<usize, (String, Option<i32>)>)>>> = Rc::new(RefCell::new(vec![]));
+    let clock = Rc::new(RoundClock::default());
+    let mut exec = Exec::default();
+    {
+        let (results, clock, sizes) = (results.clone(), clock.clone(), case.sizes.clone());
+        exec.spawner.spawn("udp-sender", a, async move {
+            let s = UdpSocket::bind(SocketAddr::new(wildcard, 0)).await.expect("bind");
+            for n in sizes {
+                let buf = vec![0xabu8; n];
+                let r = s.send_to(&buf, dst).await;
+                results
+                    .borrow_mut()
+                    .push((n, r.map_err(|e| (format!("{:?}", e.kind()), e.raw_os_error()))));
+                wait_rounds(&clock, 1).await;
+            }
+        });
+    }
+    let mtu_eff = if case.loopback_dst { cfg.loopback_mtu } else { cfg.mtu };
+    let max = cfg.udp_max(case.loopback_dst);
+    let mut complaints: Vec<(String, String)> = vec![];
+    let mut seen = 0usize;
+    let mut trace = vec![];
+    for _round in 0..case.sizes.len() + 3 {
+        clock.advance();
+        exec.run_until_stalled();
+        let mut wire: Vec<Packet> = vec![];
+        guard.egress_all(&mut wire);
+        let mut pkts: Vec<Packet> = std::mem::take(&mut *tap.borrow_mut());
+        if !pkts.is_empty() {
+            out.count("loopback_packets_via_tap", pkts.len() as u64);
+        }
+        pkts.extend(wire.iter().cloned());
+        for p in wire {
+            guard.deliver(p);
+        }
+        let res = results.borrow();
+        while seen < res.len() {
+            let (n, r) = &res[seen];
+            seen += 1;
+            let emitted: Vec<&Packet> = pkts.iter().filter(|p| matches!(p.payload, Transport::Udp(_))).collect();
+            trace.push(format!("send_to({n}) -> {r:?}; {} datagram(s) emitted", emitted.len()));
+            out.count("udp_sends", 1);
+            if *n > max {
+                match r {
+                    Err((_, Some(90))) => out.count("udp_oversize_rejected_emsgsize", 1),
+                    Err((k, c)) => complaints.push((
+                        "udp-oversize-wrong-error".into(),
+                        format!("send_to of {n} bytes (limit {max}, mtu {mtu_eff}) failed with {k}/{c:?}, expected raw OS error 90"),
+                    )),
+                    Ok(k) => complaints.push((
+                        "udp-oversize-accepted".into(),
+                        format!("send_to of {n} bytes returned Ok({k}) although the limit for mtu {mtu_eff} is {max}"),
+                    )),
+                }
+                if !emitted.is_empty() {
+                    complaints.push((
+                        "udp-oversize-emitted".into(),
+                        format!("send_to of {n} bytes (limit {max}) put {} datagram(s) on the wire", emitted.len()),
+                    ));
+                }
+            } else {
+                match r {
+                    Ok(k) if *k == *n => out.count("udp_within_limit_accepted", 1),
+                    other => complaints.push((
+                        "udp-within-limit-refused".into(),
+                        format!("send_to of {n} bytes (limit {max}) returned {other:?}"),
+                    )),
+                }
+                if *n == max {
+                    out.count("udp_exactly_at_limit", 1);
+                }
+                if emitted.len() != 1 {
+                    complaints.push((
+                        "udp-emission-count".into(),
+                        format!("send_to of {n} bytes emitted {} datagrams", emitted.len()),
+                    ));
+                }
+                for p in emitted {
+                    let Transport::Udp(u) = &p.payload else { continue };
+                    out.count("udp_datagrams_checked", 1);
+                    if p.size() > mtu_eff || u.payload.len() != *n {
+                        complaints.push((
+                            "udp-datagram-size".into(),
+                            format!("datagram of size {} (payload {}) for send_to({n}) on mtu {mtu_eff}", p.size(), u.payload.len()),
+                        ));
+                    }
+                }
+            }
+        }
+    }
+    exec.drop_all();
+    turmoil_net::verif::set_loopback_tap(None);
+    drop(guard);
+    let mut h = vcore::Fnv::new();
+    h.write_str(&case.canon());
+    for t in &trace {
+        h.write_str(t);
+    }
+    out.digest = h.finish();
+    out.nontrivial = trace.len() == case.sizes.len();
+    out.count("udp_cases", 1);
+    out.sample = Some(json!({"part": "udp", "case": case.to_json(), "limit": max, "trace": trace}));
+    if let Some((class, detail)) = complaints.first() {
+        out.violate(
+            class,
+            format!("{PROP}|{class}||{}", case.canon()),
+            format!("{class}: {detail} — {}", case.canon()),
+            json!({"part": "udp", "case": case.to_json(), "trace": trace}),
+        );
+    }
+    out
+}
+
+// ------------------------------------------------------------------ entry
+
+fn replay(ctx: &Ctx, w: Value) -> ! {
+    let rep = vcore::run_single(ctx, move |_| {
+        let part = w["part"].as_str().unwrap_or("");
+        if part == "udp" {
+            udp_out(&UdpCase::from_json(&w["case"]).expect("udp case"))
+        } else {
+            let scn = Scn::from_json(&w["scn"]).expect("scn");
+            let o = run_scn(&scn, ROUND_CAP);
+            for l in o.trace(300) {
+                println!("# {l}");
+            }
+            for e in &o.hist.events {
+                println!("# {e}");
+            }
+            let mut out = tcp_out(part, &scn, false);
+            out.nontrivial = true;
+            out
+        }
+    });
+    vcore::finish(
+        ctx,
+        rep,
+        Finish {
+            level: "exploration",
+            rule: "replay of one witness",
+            assumptions: vec![],
+            min_distinct: 0,
+            required_counters: vec![],
+        },
+    )
+}
+
+pub fn run(ctx: &Ctx) -> ! {
+    if let Some(w) = vcore::read_replay(ctx) {
+        replay(ctx, w);
+    }
+    let n_dir = directed().len() as u64;
+    let n_own: u64 = ctx.pick(4_000, 120_000);
+    let n_shared: u64 = ctx.pick(2_000, 60_000);
+    let n_udp: u64 = ctx.pick(600, 12_000);
+    let total = n_dir + n_own + n_shared + n_udp;
+    let c2 = ctx.clone();
+    let mut rep: Report = vcore::run_parallel(
+        ctx,
+        total,
+        RunOpts {
+            budget_s: ctx.pick(50.0, 780.0),
+            scenario_timeout_s: ctx.pick(100.0, 600.0),
+        },
+        move |i| {
+            if i < n_dir {
+                let (name, scn) = &directed()[i as usize];
+                let mut o = tcp_out("directed", scn, false);
+                o.count("directed_scenarios", 1);
+                o.saw("directed", name.to_string());
+                o
+            } else if i < n_dir + n_own {
+                let mut rng = Rng::new(c2.scenario_seed("c16-walk", i - n_dir));
+                tcp_out("walk", &gen::walk(&mut rng, gen::Flavor::C16), true)
+            } else if i < n_dir + n_own + n_shared {
+                // the same walks C06 runs (same seed space), judged by C16's monitors
+                let mut c06 = c2.clone();
+                c06.prop = "C06".into();
+                let mut rng = Rng::new(c06.scenario_seed("c06-walk", i - n_dir - n_own));
+                tcp_out("c06-walk", &gen::walk(&mut rng, gen::Flavor::C06), true)
+            } else {
+                let mut rng = Rng::new(c2.scenario_seed("c16-udp", i - n_dir - n_own - n_shared));
+                udp_out(&gen_udp(&mut rng))
+            }
+        },
+    );
+    rep.max_samples = 6;
+    vcore::finish(
+        ctx,
+        rep,
+        Finish {
+            level: "exploration",
+            rule: "directed cap/MTU scenarios + seeded walks over mtu/loopback_mtu/send_buf_cap/recv_buf_cap (incl. caps below one MSS, MSS = 1, asymmetric caps), IPv4/IPv6, loopback (packets observed through the hook #3 tap) and cross-host paths with drop/hold/reorder schedules, writers probing try_write against netstat + C06's walks re-judged + UDP send_to around the MTU limit; monitors: payload <= MSS on every segment, bytes beyond the highest ACK delivered to the sender <= last window delivered to it, netstat send_q/recv_q <= caps after every round, API-level conservation, try_write/partial-write/parked-write return values; a TCP run is non-trivial when data segments and window bounds were evaluated and some bound was tight (queue at its cap, zero window, segment of exactly MSS, in-flight equal to the window); distinct = distinct digest of packet trace + API trace",
+            assumptions: vec![
+                "window clause: A = highest valid cumulative ACK the driver delivered to the sender, W = window of the last ACK-bearing non-RST segment (SYN/SYN-ACK before that) it delivered, evaluated per side once the wire shows that side established".into(),
+                "netstat is trusted for send_q / recv_q; the API-level conservation checks use only write/read return values and wire ACK numbers".into(),
+                "zero-window probes carry no payload and are not bytes in flight".into(),
+            ],
+            min_distinct: ctx.pick(1500, 20000),
+            required_counters: vec![
+                "data_segments_checked_mss",
+                "segments_exactly_mss",
+                "window_bound_evaluations",
+                "window_bound_tight",
+                "zero_windows_advertised",
+                "netstat_entries_checked",
+                "send_q_at_cap",
+                "recv_q_at_cap",
+                "conservation_evaluations",
+                "try_write_wouldblock_observed",
+                "partial_writes_observed",
+                "parked_writes_observed",
+                "loopback_packets_via_tap",
+                "runs_loopback",
+                "runs_cross_host",
+                "runs_ipv6",
+                "runs_with_cap_below_one_mss",
+                "runs_with_asymmetric_caps",
+                "runs_with_loss",
+                "runs_with_reordering",
+                "udp_oversize_rejected_emsgsize",
+                "udp_exactly_at_limit",
+                "udp_datagrams_checked",
+            ],
+        },
+    )
+}
